@@ -59,7 +59,8 @@ def median(array, width=None, axis=None, even=False):
             return np.median(array, axis=axis)
     else:
         if array.ndim == 1:
-            medarray = medfilt(array, min(width, array.size))
+            medarray = medfilt(array.astype(array.dtype.newbyteorder('=')),
+                               min(width, array.size))
             istart = int((width - 1)/2)
             iend = array.size - int((width + 1)/2)
             i = np.arange(array.size)
